@@ -14,6 +14,8 @@ import (
 	"deps.dev/util/resolve/version"
 )
 
+var c08N = [...]string{"0", "1", "2", "3", "4"}
+
 func c05PK(name string) resolve.PackageKey {
 	return resolve.PackageKey{System: resolve.PyPI, Name: name}
 }
